@@ -32,10 +32,12 @@ const (
 	OpYield
 	OpDone
 	OpLockWait
+	OpTryLock
+	OpTryRLock
 )
 
 func (k OpKind) String() string {
-	return [...]string{"start", "lock", "unlock", "rlock", "runlock", "load", "store", "rmw", "read", "write", "yield", "done", "lock-wait"}[k]
+	return [...]string{"start", "lock", "unlock", "rlock", "runlock", "load", "store", "rmw", "read", "write", "yield", "done", "lock-wait", "trylock", "tryrlock"}[k]
 }
 
 // MutexState is the simulated state of one (RW)mutex.
@@ -398,6 +400,43 @@ func (e *Exec) Lock(obj any) {
 	m.Writer = t.id + 1
 	join(t.vc, m.VC)
 	e.ev(t, "lock")
+}
+
+// TryLock simulates Mutex.TryLock / RWMutex.TryLock: one scheduling point that never blocks and
+// succeeds exactly when the mutex is neither write- nor read-locked at that point.
+func (e *Exec) TryLock(obj any) bool {
+	t := e.point(OpTryLock, obj, 0)
+	if t == nil {
+		return false
+	}
+	m := e.mutex(obj)
+	if m.Writer != 0 || len(m.Readers) > 0 {
+		e.ev(t, "trylock failed")
+		t.hash = mix(t.hash, 0xfa11)
+		return false
+	}
+	m.Writer = t.id + 1
+	join(t.vc, m.VC)
+	e.ev(t, "trylock")
+	return true
+}
+
+// TryRLock simulates RWMutex.TryRLock: fails if a writer holds or is waiting for the mutex.
+func (e *Exec) TryRLock(obj any) bool {
+	t := e.point(OpTryRLock, obj, 0)
+	if t == nil {
+		return false
+	}
+	m := e.mutex(obj)
+	if m.Writer != 0 || len(m.Pending) > 0 {
+		e.ev(t, "tryrlock failed")
+		t.hash = mix(t.hash, 0xfa11)
+		return false
+	}
+	m.Readers[t.id]++
+	join(t.vc, m.VC)
+	e.ev(t, "tryrlock")
+	return true
 }
 
 // Unlock simulates Mutex.Unlock / RWMutex.Unlock.
